@@ -134,7 +134,6 @@ pub struct Vm {
     working_class_def: Option<ClassDef>,
     module_loader: LoadModuleFn,
     printer: NativeFn,
-    handling_exception: bool,
     #[cfg(feature = "verif_hooks")]
     verif: verif_vm::VerifVmState,
 }
@@ -161,7 +160,6 @@ impl Vm {
             module_loader: default_read_module_source,
             printer: core::print,
             working_class_def: None,
-            handling_exception: false,
             #[cfg(feature = "verif_hooks")]
             verif: Default::default(),
         };
@@ -187,7 +185,6 @@ impl Vm {
     pub fn execute(&mut self, function: Root<ObjFunction>, args: &[Value]) -> Result<Value, Error> {
         self.ip = ptr::null();
         self.fiber = None;
-        self.handling_exception = false;
         let module = self.module(&function.module_path);
         let closure = self.new_root_obj_closure(function.as_gc(), module);
         let fiber = self.new_root_obj_fiber(closure.as_gc());
@@ -1101,7 +1098,7 @@ impl Vm {
     }
 
     fn end_finally_impl(&mut self) -> Result<(), Error> {
-        if self.handling_exception {
+        if self.active_fiber().handling_exception {
             self.unwind_stack()?;
         }
         let return_data = self.active_fiber_mut().take_return_data();
@@ -1128,7 +1125,7 @@ impl Vm {
     }
 
     fn throw_impl(&mut self) -> Result<(), Error> {
-        self.handling_exception = true;
+        self.active_fiber_mut().handling_exception = true;
         self.active_fiber_mut().error_ip = Some(self.ip);
         self.unwind_stack()
     }
@@ -1575,7 +1572,7 @@ impl Vm {
             .truncate(handler.init_stack_size);
         self.push(exc_object);
         self.active_fiber_mut().frames.truncate(handler.frame_count);
-        self.handling_exception = handler.has_catch_block();
+        self.active_fiber_mut().handling_exception = handler.has_catch_block();
         self.active_fiber_mut().current_frame_mut().unwrap().ip = handler.catch_ip;
         self.load_frame();
 
